@@ -262,6 +262,41 @@ func registerMoreIntrinsics() {
 	in["strings.noescape"] = func(fr *frame, a []Value) Value { return a[0] }
 	in["unsafe.String"] = nil
 	delete(in, "unsafe.String")
+	// sort.Slice: insertion sort driven by the caller's less closure (any correct sort gives the
+	// same result for a strict weak order; the real one goes through reflectlite.Swapper)
+	in["sort.Slice"] = func(fr *frame, a []Value) Value {
+		x := fr.x
+		itf := a[0].(Iface)
+		sl, ok := itf.v.(Slice)
+		if !ok {
+			abortf("sort.Slice of %T", itf.v)
+		}
+		less := a[1]
+		n := len(sl.v)
+		if n > 8 {
+			abortf("sort.Slice of more than 8 elements")
+		}
+		// the closure indexes the caller's slice, so elements are swapped in place
+		for i := 1; i < n; i++ {
+			for j := i; j > 0; j-- {
+				r := x.call(fr, fr.curInstr, less, []Value{x.f.Const(64, uint64(j)), x.f.Const(64, uint64(j-1))})
+				if !x.decide(fr, r.(*Term)) {
+					break
+				}
+				sl.v[j], sl.v[j-1] = sl.v[j-1], sl.v[j]
+			}
+		}
+		return nil
+	}
+	in["strconv.Quote"] = func(fr *frame, a []Value) Value {
+		x := fr.x
+		s := a[0].(Str)
+		out := []*Term{x.f.Const(8, '"')}
+		out = append(out, s.b...)
+		out = append(out, x.f.Const(8, '"'))
+		x.noteStub("strconv.Quote -> quotes around the unescaped text (abstract)")
+		return Str{out}
+	}
 	in["runtime.Caller"] = inRuntimeCaller
 	in[zz+"Here"] = func(fr *frame, a []Value) Value {
 		x := fr.x
